@@ -6,7 +6,7 @@
     Python's implicit ids are object addresses: only freshness matters, so the model threads
     a counter [nx] and allocates [Fresh nx].  The guard under which [Fresh nx] is new is
     [belowb nx g] (every [Fresh] id of the host is below the counter). *)
-From Coq Require Import List Arith Bool PeanoNat NArith.
+From Coq Require Import List Arith Bool PeanoNat.
 Import ListNotations.
 Require Import Fggs.Model.Semiring.
 
